@@ -116,6 +116,14 @@ def run(ctx):
     if not r.ok:
         ctx.machinery(f"TLC MCXSpec: {r.violated} {r.error[:600]}")
     ctx.note(f"TLC MCXSpec: {r.generated} key/value lists: Parse(Join(kvs)) = Expected(kvs), {r.wall:.1f}s")
+    for cfg in ["GI"] + ([] if ctx.quick else ["GI_big"]):
+        g = tlc.run("MCGroupIds", cfg + ".cfg", scratch=ctx.scratch, timeout=1200, parse_trace=False)
+        if not g.ok:
+            ctx.machinery(f"TLC MCGroupIds/{cfg}: {g.violated} {g.error[:500]}")
+        ctx.note(f"TLC MCGroupIds/{cfg}: {g.generated} states: no two live gateways share an id, automatic ids unique")
+    g = tlc.run("MCGroupIds", "GI_norace.cfg", scratch=ctx.scratch, timeout=600, parse_trace=False)
+    if g.violated != "NoSharedId":
+        ctx.machinery(f"TLC mutant MCGroupIds/GI_norace (non-atomic _register) not killed: {g.violated}")
     cases, metas = [], []
     # enumerated: all lists of <= 2 pairs over the alphabet, sampled lists of 3
     pairs = list(itertools.product(KEYS, VALS))
